@@ -204,3 +204,11 @@ Example C12_stuck_call_rejected :
                               (Lookup 0 1 0 true, [Parked]); (Commit 0 1 0, [Stuck 3])]) =
   [[]; []; []; [CL_STUCK; CL_SHAPE]].
 Proof. vm_compute. reflexivity. Qed.
+
+(* Likewise a call into the stack that panics (observation [Panicked], produced only by the
+   runner's recover): the message handling died, the write it carried has no outcome. *)
+Example C12_panicking_call_rejected :
+  map fst (judge minit sinit [(AddCb, []); (Arrive 0 1 true 0, [Presented 0 0 1]); (Clean 0, [PendingLeft 0 0]);
+                              (Arrive 4 2 true 0, [Panicked 1])]) =
+  [[]; []; []; [CL_PANIC; CL_PRESENT]].
+Proof. vm_compute. reflexivity. Qed.
